@@ -5,6 +5,18 @@ VERIF = os.path.dirname(os.path.dirname(os.path.abspath(__file__)))
 ALL = ["C%02d" % i for i in range(1, 20)]
 
 CHECKS = {
+ "C02": dict(
+   technique="runtime type monitor (static type taken under parsingBegin vs type of the evaluated value) over the construct matrix + batch/stepwise twin execution + statement-boundary monitor of constrained symbols (step hook) + ASan/UBSan",
+   text="(a) every operator/builtin/member over ~110 operands of defined static type (typed variables, literals, typed constructors) is compiled and "
+        "evaluated twice; the run-time type (major, dimension, tuple declaration) must equal the non-opaque static type. (b) generated programs "
+        "(loops/errors/functions), retyping programs and programs that retype a variable several times inside compiled-but-never-executed blocks are "
+        "run as one unit and one top-level statement at a time in a twin context; if the unit runs without error the stepwise run must be accepted, "
+        "error-free and print the same. (c) programs and host stores that try to change the major type of a '$' variable or an active for/forall "
+        "iterator (literals, opaque function results, inside loops/handlers, '$' iterators, nested reuse of an iterator) run under a step-hook monitor "
+        "that records every constrained symbol's type at every statement boundary.",
+   note="trusted: harness type serialisation; opaque static types (undefined, structure-less tuple, table of undefined) only constrain what they state; "
+        "user functions' declared types are not relied upon; 6 families of known findings (numeric built-ins/operators whose static type ignores null or complex operands)",
+   design="4/C02"),
  "C01": dict(
    technique="sanitizer oracle (ASan+UBSan, fatal reports) + crash/foreign-exception monitor over construct matrix, harvested/mutated programs, random bytes, three entry routes; libFuzzer in the thorough tier",
    text="Every operator, builtin and member is applied to a pool of ~75 values of every type (typed/untyped nulls, boundary integers and doubles, 8-bit "
